@@ -182,6 +182,12 @@ func (r *HTTPResponseExpr) Validate(e *HTTPEndpointExpr) *eval.ValidationErrors 
 		inview = " all views of"
 	}
 
+	if r.Tag[0] != "" && IsObject(e.MethodExpr.Result.Type) {
+		if e.MethodExpr.Result.Find(r.Tag[0]) == nil {
+			verr.Add(r, "tag %q has no equivalent attribute in result type", r.Tag[0])
+		}
+	}
+
 	if !r.Headers.IsEmpty() {
 		verr.Merge(r.Headers.Validate("HTTP response headers", r))
 		if isEmpty(e.MethodExpr.Result) {
